@@ -131,11 +131,34 @@ class Builtins:
         k = z3.Const('k!upd', C.AnyT)
         h1, h2 = z3.Select(has, bound.t), z3.Select(has, o.t)
         v1, v2 = z3.Select(val, bound.t), z3.Select(val, o.t)
-        nh = z3.Lambda([k], z3.Or(z3.Select(h1, k), z3.Select(h2, k)))
-        nv = z3.Lambda([k], z3.If(z3.Select(h2, k), z3.Select(v2, k), z3.Select(v1, k)))
+        # pointwise array combinators (decided by z3's array theory; no lambda, no quantifier)
+        bb = z3.Bool('b!m')
+        nh = z3.Map(z3.Or(bb, z3.Bool('c!m')).decl(), h1, h2)
+        nv = z3.Map(z3.If(bb, k, k).decl(), h2, v2, v1)
         st.heap[('dict', 'has')] = z3.Store(has, bound.t, nh)
         st.heap[('dict', 'val')] = z3.Store(val, bound.t, nv)
         return self.ex.ok(NONE, st)
+
+    def b_dict_keys(self, bound, args, kw, st, fr):
+        "the key view as an abstract duplicate-free collection of Any values (membership = the has-row)"
+        from .l2 import mk_abs
+        C = self.ex.C
+        has, _ = C.dict_arrays(st)
+        row = z3.Select(has, bound.t)
+        n = fresh_int('nkeys')
+        st.assume(n >= 0)
+        L = mk_abs(C, st, 'any', lambda t: z3.Select(row, t), n, base='keys', distinct=True, register=False)
+        return self.ex.ok(L, st)
+
+    def b_dict_items(self, bound, args, kw, st, fr):
+        "items view: iterated as (key, value) pairs; represented by the key collection with a pairing function"
+        C = self.ex.C
+        outs = self.b_dict_keys(bound, args, kw, st, fr)
+        L = outs[0].val
+        _, val = C.dict_arrays(st)
+        vrow = z3.Select(val, bound.t)
+        L.pair_of = lambda t: SAny(z3.Select(vrow, t))
+        return outs
 
     def b_re_match(self, args, kw, st, fr):
         "re.match(r'\\d+$', s)  (the only patterns droop uses: digits, optionally signed)"
@@ -259,6 +282,33 @@ class Builtins:
         vt = self.ex.C.to_any(value).t
         h, v = z3.Select(has, d.t), z3.Select(val, d.t)
         return self.ex.ok(SBool(z3.And(h == z3.Store(snap.has, kt, z3.BoolVal(True)), v == z3.Store(snap.val, kt, vt))), st)
+
+    def b_spec_dref(self, args, kw, st, fr):
+        "dref(d, key): the dictionary stored under key in d (the value is an object reference)"
+        C = self.ex.C
+        d, k = args
+        v = C.dict_val(st, d, k).t
+        return self.ex.ok(SRef('dict', C.AnyT.ov(v)), st)
+
+    def b_spec_dict_has_ref(self, args, kw, st, fr):
+        "dict_has_ref(d, key): key is present and bound to an object"
+        C = self.ex.C
+        d, k = args
+        return self.ex.ok(SBool(z3.And(C.dict_has(st, d, k), C.AnyT.is_o(C.dict_val(st, d, k).t))), st)
+
+    def b_spec_dict_copy_of(self, args, kw, st, fr):
+        "dict_copy_of(d, e): d has exactly e's keys and values (in the current state)"
+        C = self.ex.C
+        d, e = args
+        has, val = C.dict_arrays(st)
+        return self.ex.ok(SBool(z3.And(z3.Select(has, d.t) == z3.Select(has, e.t),
+                                       z3.Select(val, d.t) == z3.Select(val, e.t))), st)
+
+    def b_spec_any_is_str(self, args, kw, st, fr):
+        C = self.ex.C
+        a = C.to_any(args[0])
+        lit = args[1]
+        return self.ex.ok(SBool(a.t == C.to_any(lit).t), st)
 
     def b_spec_any_mem(self, args, kw, st, fr):
         L, x = args
@@ -690,6 +740,8 @@ class Builtins:
         ex = self.ex
         if not args:
             return ex.ok(SSet([]), st)
+        if isinstance(args[0], SAbs) and args[0].ek == 'any' and not hasattr(args[0], 'pair_of'):
+            return ex.ok(args[0], st)       # immutable view of the same members
         items = ex.C.concrete_items(args[0], st)
         if items is not None:
             return ex.ok(SSet(items), st)
@@ -701,6 +753,13 @@ class Builtins:
         raise Unsupported('set() of %r' % (args[0],))
 
     def b_dict(self, args, kw, st, fr):
+        if kw and not args:
+            # dict(name=value, ...): a new dictionary with those literal keys
+            C = self.ex.C
+            d = C.new_dict(st)
+            for k, v in kw.items():
+                C.dict_store(st, d, SStr(lit=k), v)
+            return self.ex.ok(d, st)
         if args or kw:
             hk = self.ex.hooks.get('dict_of')
             if hk:
